@@ -221,6 +221,59 @@ def check_c19(seed, tier):
         finally:
             HOLDER["s"] = None
             clean()
+    # loads from another PROCESS: a worker forked after the parent has already read from the tree (the default start method of
+    # `multiprocessing` on Linux), a worker given a pickled copy — each load, in the worker and in the parent afterwards, must
+    # equal the sequential load (a handle or a position kept across loads would be shared through the fork)
+    import os as _os
+    for trial in range(3 if tier == "quick" else 20):
+        level = rng.choice(["1.1", "1.5"])
+        # (a file several read-ahead buffers long: a short one is served from the parent's buffer whatever the worker did)
+        n = rng.randint(90, 160)
+        cfg = {"seed": rng.randrange(10**9), "level": level, "images": [("HH", None)], "n_lines": n, "n_pixels": 24,
+               "n_att": 1, "n_chan": 1, "mapproj": None}
+        prod = products.build(cfg)
+        path, clean = products.place(prod, "local")
+        try:
+            rpc = rng.choice([1, 2, 3])
+            t = ceos_alos2.open_alos2(path, backend_options={"use_cache": False, "records_per_chunk": rpc})
+            full = products.twin(prod.images[0])
+            da = t["imagery/HH/data"]
+            for how in ("fork", "pickled-copy-in-fork"):
+                a = rng.randrange(0, 4)
+                b = rng.randrange(4, n - 2)
+                c = rng.randrange(n // 2, n - 1)     # the parent reads on, sequentially, across several buffer lengths
+                evals += 1
+                distinct.add(("process", how, n, rpc, a, b, c))
+                case = {"cfg": cfg, "scenario": f"worker process ({how})", "rpc": rpc, "parent_rows": [a, c], "worker_row": b}
+                first = da.isel(rows=slice(a, a + 1)).values                     # the parent has read before the fork
+                blob = pickle.dumps(t) if how != "fork" else None
+                r_fd, w_fd = _os.pipe()
+                pid = _os.fork()
+                if pid == 0:
+                    try:
+                        import signal as _signal
+                        _signal.alarm(30)   # a child of a multi-threaded parent may inherit a held lock: never hang the check
+                        src = pickle.loads(blob)["imagery/HH/data"] if blob is not None else da
+                        out = src.isel(rows=slice(b, n)).values
+                        _os.write(w_fd, b"ok" if products.same_bits(out, full[b:n]) else b"differs")
+                    except BaseException as e:  # noqa: BLE001
+                        _os.write(w_fd, ("raised " + type(e).__name__).encode())
+                    finally:
+                        _os._exit(0)
+                _os.close(w_fd)
+                _os.waitpid(pid, 0)
+                verdict = _os.read(r_fd, 100).decode()
+                _os.close(r_fd)
+                if verdict and verdict != "ok":   # no verdict at all: the child was stopped by its alarm — inconclusive, not judged
+                    viol.append({"case": case, "what": f"the worker's load of rows {b}..{n} {verdict}"})
+                try:
+                    after = da.isel(rows=slice(a + 1, c + 1)).values                # ... and reads on after the worker is gone
+                    if not products.same_bits(first, full[a:a + 1]) or not products.same_bits(after, full[a + 1:c + 1]):
+                        viol.append({"case": case, "what": f"the parent's load of rows {a + 1}..{c} after a worker process loaded from the same tree differs from the samples in the file"})
+                except Exception as e:  # noqa: BLE001
+                    viol.append({"case": case, "what": f"the parent's load after the worker raised {type(e).__name__}: {e}"[:200]})
+        finally:
+            clean()
     # copies of the lazily read array must address the SAME bytes as the original: pickle / deepcopy / copy of `Array` objects
     # with synthetic byte ranges — small files, and files beyond 2**31 / 2**32 / 2**40 bytes (real scenes exceed 4 GiB)
     import copy as _copy
